@@ -253,6 +253,9 @@ def check(ctx):
     ctx.floor('A11m', 3, 'mutable containers created in class bodies')
     from ..rules import shapes as _shr
     _shr.check_sibling_reductions(ctx)
+    from ..rules import indexspace as _ix14
+    _ix14.check_index_spaces(ctx, [f'{GP}.get_graph', f'{GP}._update_comb_fixed_mask'])
+    _ix14.check_translation(ctx)
 
 
 from ..selftest import V  # noqa: E402
